@@ -255,9 +255,19 @@ class Gen:
             return "%028X" % ((df << 107) | r.getrandbits(107))
         return self.f_df17(icao, self.me_airpos(alt=r.randint(0, 2047)))
 
+    def text_line(self, offset, ch, tail=None):
+        """a comment-like line of valid UTF-8 whose multi-byte character [ch] starts at byte [offset]; never a frame"""
+        r = self.r
+        fill = "ghijklmnopqrstuvwxyz .,:-_#"
+        body = "".join(r.choice(fill) for _ in range(offset)) + ch
+        body += "".join(r.choice(fill) for _ in range(r.randint(0, 90) if tail is None else tail))
+        return body.encode("utf-8")
+
     def junk_line(self):
         r = self.r
-        k = r.randint(0, 9)
+        k = r.randint(0, 10)
+        if k == 10:
+            return self.text_line(r.choice([r.randint(0, 140), 15, 31, 62, 63, 64, 79, 127, 128, 255]), r.choice(["é", "€", "😀", "✈"]))
         if k == 0:
             return b""
         if k == 1:
